@@ -16,3 +16,13 @@ package schema
 // ToHCLSchema builds the argument of hcl's Body.Content/PartialContent; hcl treats it as a set.
 //@ maprange-unordered (*schema.BodySchema).ToHCLSchema 1 the hcl.BodySchema handed to hcl is used as a set of names
 //@ maprange-unordered (*schema.BodySchema).ToHCLSchema 2 the hcl.BodySchema handed to hcl is used as a set of names
+
+// ---- C16: the schema key is canonical: labels are sorted by index and attributes by name before
+// ---- marshalling, by comparators that read the slices being sorted.
+//@ also-serves (schema.DependencyKeys).MarshalJSON C16
+//@ contract (schema.DependencyKeys).MarshalJSON$1 (i, j) (less)
+//@   requires 0 <= i && i < len(sk.Labels) && 0 <= j && j < len(sk.Labels)
+//@   ensures [C16] less == (sk.Labels[i].Index < sk.Labels[j].Index)
+//@ contract (schema.DependencyKeys).MarshalJSON$2 (i, j) (less)
+//@   requires 0 <= i && i < len(sk.Attributes) && 0 <= j && j < len(sk.Attributes)
+//@   ensures [C16] less == (sk.Attributes[i].Name < sk.Attributes[j].Name)
